@@ -121,6 +121,24 @@ theorem orderVals (rev : Bool) (vs : List Value) : Inert (orderVals rev vs) := b
   repeat' split
   all_goals first | exact pure _ | exact throw _ | exact unsupp _
 
+theorem liftP (r : PRes) : Inert (liftP r) := by
+  cases r with
+  | vals vs => exact pure _
+  | err e => exact throw _
+  | unsup w => exact unsupp _
+
+/-- The pure builtins make no request. -/
+theorem callPure (name : String) (args : List Value) (on : List String) : Inert (callPure name args on) := by
+  unfold C15.callPure
+  refine bind (noOpts on) (fun _ => ?_)
+  split
+  · exact bind (inputsOf _) (fun vs => emit _)
+  · exact bind (inputsOf _) (fun vs => bind (liftP _) (fun o => emit o))
+  · split
+    · exact bind (intArg _) (fun n => emit _)
+    · exact throw _
+  · exact bind (liftP _) (fun o => emit o)
+
 theorem runDefers (ds : List (Nat × Value)) : Inert (runDefers ds) := by
   induction ds with
   | nil => exact pure _
@@ -174,6 +192,7 @@ macro "inert1" : tactic => `(tactic| first
   | exact Inert.takeInput
   | exact Inert.inputsOf _
   | exact Inert.orderVals _ _
+  | exact Inert.callPure _ _ _
   | exact Inert.emit _
   | exact Inert.liftE _
   | apply Inert.bind
@@ -181,13 +200,26 @@ macro "inert1" : tactic => `(tactic| first
   | dsimp only)
 
 attribute [local irreducible] noOpts numArgs intArg inputsOf orderVals emit takeInput liftE throwE
-  unsupported C15.rec lengthOf rangeVals Inert in
+  unsupported C15.rec lengthOf rangeVals Inert callPure in
 /-- Builtin commands other than `each` and `keep-if` make no request. -/
-theorem Inert.callBuiltin {name : String} (h1 : name ≠ "each") (h2 : name ≠ "keep-if") (args : List Value)
-    (on : List String) (ov : List Value) : Inert (callBuiltin name args on ov) := by
-  unfold C15.callBuiltin
+theorem Inert.callBuiltinBody {name : String} (h1 : name ≠ "each") (h2 : name ≠ "keep-if") (args : List Value)
+    (on : List String) (ov : List Value) : Inert (callBuiltinBody name args on ov) := by
+  unfold C15.callBuiltinBody
   split
   all_goals first | exact absurd rfl h1 | exact absurd rfl h2 | skip
   all_goals (repeat' inert1)
+
+theorem Inert.precheck (name : String) (args : List Value) (on : List String) : Inert (precheck name args on) := by
+  unfold C15.precheck
+  split
+  · exact Inert.throw _
+  · split
+    · exact Inert.throw _
+    · exact Inert.pure _
+
+theorem Inert.callBuiltin {name : String} (h1 : name ≠ "each") (h2 : name ≠ "keep-if") (args : List Value)
+    (on : List String) (ov : List Value) : Inert (callBuiltin name args on ov) := by
+  unfold C15.callBuiltin
+  exact Inert.bind (Inert.precheck name args on) (fun _ => Inert.callBuiltinBody h1 h2 args on ov)
 
 end C15
